@@ -373,4 +373,19 @@ theorem code_header (inputs outputs : List String) (inputValues outputValues : B
       σ.ret = some (sep.intercalate (header inputs outputs inputValues outputValues)) :=
   Op.Fld.code_header inputs outputs inputValues outputValues sep
 
+/-- **Tie A.**  `Gen.Code.FldExporter_write` is regenerated from the source of `FldExporter.write` (`ops` = what the
+    function uses of NumPy and of the engine – `np.atleast_2d`, `shape[1]`, a column, `restart`, `variable.value = …`,
+    `process`, `input_values`, `output_values`, `np.hstack` – as arbitrary functions on arbitrary types of engines and
+    arrays; `np.savetxt` receives `out`).  It raises `ValueError` exactly when the rows have fewer columns than there
+    are input variables; otherwise the engine is restarted, the columns are assigned to the input variables in
+    order, the engine processes once, and `np.savetxt` is given the selected blocks side by side (inputs, outputs,
+    or one empty block) and the header of `code_header` (or `""` when headers are off): `Op.Fld.write`. -/
+theorem code_write {E A : Type} [Inhabited E] [Inhabited A] (ops : WriteOps E A) (inputs outputs : List String)
+    (inputValues outputValues headers : Bool) (sep : String) (e0 : E) (iv0 : A) :
+    match write ops inputs outputs inputValues outputValues headers sep e0 iv0 with
+    | none => Gen.Code.FldExporter_write.run ops inputs outputs inputValues outputValues headers sep e0 iv0 {} = .error .value
+    | some r => ∃ σ, Gen.Code.FldExporter_write.run ops inputs outputs inputValues outputValues headers sep e0 iv0 {} = .ok σ ∧
+        σ.engine = r.1 ∧ σ.out = some r.2 :=
+  Op.Fld.code_write ops inputs outputs inputValues outputValues headers sep e0 iv0
+
 end C18
